@@ -32,7 +32,8 @@ struct RecvTape {
 fn recv_tape(seed: u64, stream: &str) -> RecvTape {
     let mut r = tape_rng(seed, stream);
     let bits: [u8; 32] = r.gen();
-    let tas: Vec<Scalar> = (0..N).map(|_| Scalar::random(&mut r)).collect();
+    // both parties draw NonZeroScalar::random (a zero candidate is rejected and redrawn)
+    let tas: Vec<Scalar> = (0..N).map(|_| *k256::NonZeroScalar::random(&mut r)).collect();
     let ros: Vec<ProjectivePoint> = (0..N).map(|_| ProjectivePoint::random(&mut r)).collect();
     RecvTape { stream: stream.to_string(), bits, tas, ros }
 }
@@ -360,7 +361,18 @@ pub fn run(kv: &Args) -> i32 {
         // degenerate random tapes: case 1 (mod 5): the receiver's choice bits are all zero and its first ephemeral scalars
         // are 0 (its first points are the hash-to-curve points themselves); case 2: all-one choice bits; case 3: the
         // sender's first ephemeral scalars are 0 (it sends the point at infinity, encoded as 33 zero bytes)
-        let (rt, st) = match case % 5 { 1 => ("#zero96", ""), 2 => ("#ones32", ""), 3 => ("", "#zero64"), _ => ("", "") };
+        //   case 4: the receiver's hash-to-curve partner point r_other of instances 0 and 3 is the point at infinity (a zero
+        //   32-byte draw where ProjectivePoint::random takes its scalar: block 1 + 256 + i), sent as 33 zero bytes;
+        //   case 0 (from the sixth case on): the sender's two draws of instance 0 and of instance 255 are exactly the group
+        //   order (not a canonical scalar: redrawn; a reduction instead of a rejection would give 0)
+        let (rt, st) = match case % 5 {
+            1 => ("#zero96", ""),
+            2 => ("#ones32", ""),
+            3 => ("", "#zero64"),
+            4 => ("#zero32@8224+zero32@8320", ""),
+            _ if case >= 5 => ("", "#order2@0+order2@16384"),
+            _ => ("", ""),
+        };
         let t_r = recv_tape(seed, &format!("c05-recv-{case}{rt}"));
         let t_r2 = recv_tape(seed, &format!("c05-recv2-{case}"));
         let s_s = format!("c05-send-{case}{st}");
